@@ -282,6 +282,14 @@ MUTANTS = [
      "edits": [(A, "(0..=Symbol::MAX).map(move |symbol| edges.get(&symbol).copied())", "(Symbol::MIN..=Symbol::MAX).map(move |sym| edges.get(&sym).copied())")]},
     {"id": "C15-benign-table-transition-commuted", "prop": "C15", "benign": True,
      "edits": [(A, "self.states[self.lang_size * state.0 + symbol as usize]", "self.states[symbol as usize + state.0 * self.lang_size]")]},
+    # seeded/benign C03-N / C15-N: lossless conversion call instead of the cast, factors commuted
+    {"id": "C15-benign-table-transition-usize-from", "prop": "C15", "benign": True,
+     "edits": [(A, "self.states[self.lang_size * state.0 + symbol as usize]", "self.states[state.0 * self.lang_size + usize::from(symbol)]")]},
+    {"id": "C15-benign-table-transition-into-hoisted", "prop": "C15", "benign": True,
+     "edits": [(A, "self.states[self.lang_size * state.0 + symbol as usize]",
+                "let column: usize = symbol.into();\n        let row = state.0 * self.lang_size;\n        self.states[row + column]")]},
+    {"id": "C15-table-transition-from-stride-off", "prop": "C15", "expect": "R4-TABLE/ANCHOR/transition-index",
+     "edits": [(A, "self.states[self.lang_size * state.0 + symbol as usize]", "self.states[state.0 * (self.lang_size - 1) + usize::from(symbol)]")]},
 ]
 
 
